@@ -26,26 +26,26 @@ type CheckSpec struct {
 }
 
 var Checks = map[string]CheckSpec{
-	"C01": {Property: "C01", Level: "exploration", Profiles: []string{"general", "book", "fixed", "clock", "general", "extreme"}, QuickS: 50, ThoroughS: 600},
-	"C02": {Property: "C02", Level: "exploration", Profiles: []string{"general", "clock", "book", "fixed", "vesting", "extreme"}, QuickS: 50, ThoroughS: 600},
-	"C03": {Property: "C03", Level: "exploration", Profiles: []string{"book", "book", "rounds"}, QuickS: 50, ThoroughS: 600},
-	"C04": {Property: "C04", Level: "exploration", Profiles: []string{"book", "fixed", "book", "general"}, QuickS: 50, ThoroughS: 600},
-	"C05": {Property: "C05", Level: "exploration", Profiles: []string{"book", "fixed", "rounds", "general"}, QuickS: 45, ThoroughS: 600},
-	"C06": {Property: "C06", Level: "exploration", Profiles: []string{"fixed", "fixed", "general"}, Opts: ExecOpts{Lin: true}, QuickS: 45, ThoroughS: 600},
-	"C07": {Property: "C07", Level: "fault_enumeration", Profiles: []string{"general", "book", "idle", "extreme", "clock", "book"}, Opts: ExecOpts{BankFailEnum: true, MaxEnumBlocks: 5}, QuickS: 60, ThoroughS: 900},
-	"C08": {Property: "C08", Level: "exploration", Profiles: []string{"clock", "general", "rounds"}, QuickS: 45, ThoroughS: 600},
-	"C09": {Property: "C09", Level: "exploration", Profiles: []string{"vesting", "clock", "general"}, QuickS: 45, ThoroughS: 600},
-	"C10": {Property: "C10", Level: "exploration", Profiles: []string{"general", "messages"}, QuickS: 40, ThoroughS: 300},
-	"C11": {Property: "C11", Level: "exploration", Profiles: []string{"book", "rounds", "general"}, QuickS: 45, ThoroughS: 600},
-	"C12": {Property: "C12", Level: "exploration", Profiles: []string{"clock", "general"}, QuickS: 45, ThoroughS: 600},
-	"C13": {Property: "C13", Level: "exploration", Profiles: []string{"rounds", "rounds", "book"}, QuickS: 50, ThoroughS: 600},
-	"C14": {Property: "C14", Level: "exploration", Profiles: []string{"replicas"}, QuickS: 50, ThoroughS: 900},
-	"C15": {Property: "C15", Level: "exploration", Profiles: []string{"genesis"}, QuickS: 50, ThoroughS: 600},
-	"C16": {Property: "C16", Level: "exploration", Profiles: []string{"book", "rounds", "fixed", "vesting"}, Opts: ExecOpts{Queries: true, QueryEvery: 4}, QuickS: 45, ThoroughS: 600},
-	"C17": {Property: "C17", Level: "fault_enumeration", Custom: "hooks", Profiles: []string{"hooks", "book", "clock", "fixed"}, QuickS: 40, ThoroughS: 600},
-	"C20": {Property: "C20", Level: "exploration", Custom: "cli", QuickS: 45, ThoroughS: 600},
-	"C18": {Property: "C18", Level: "exploration", Profiles: []string{"messages", "general", "messages", "extreme"}, Opts: ExecOpts{Trace: true}, QuickS: 50, ThoroughS: 600},
-	"C19": {Property: "C19", Level: "exploration", Profiles: []string{"concurrent", "general"}, Opts: ExecOpts{Trace: true}, QuickS: 50, ThoroughS: 600},
+	"C01": {Property: "C01", Level: "exploration", Profiles: []string{"general", "book", "fixed", "clock", "general", "extreme"}, QuickS: 75, ThoroughS: 600},
+	"C02": {Property: "C02", Level: "exploration", Profiles: []string{"general", "clock", "book", "fixed", "vesting", "extreme"}, QuickS: 75, ThoroughS: 600},
+	"C03": {Property: "C03", Level: "exploration", Profiles: []string{"book", "book", "rounds"}, QuickS: 75, ThoroughS: 600},
+	"C04": {Property: "C04", Level: "exploration", Profiles: []string{"book", "fixed", "book", "general"}, QuickS: 75, ThoroughS: 600},
+	"C05": {Property: "C05", Level: "exploration", Profiles: []string{"book", "fixed", "rounds", "general"}, QuickS: 75, ThoroughS: 600},
+	"C06": {Property: "C06", Level: "exploration", Profiles: []string{"fixed", "fixed", "general"}, Opts: ExecOpts{Lin: true}, QuickS: 75, ThoroughS: 600},
+	"C07": {Property: "C07", Level: "fault_enumeration", Profiles: []string{"general", "book", "idle", "extreme", "clock", "book"}, Opts: ExecOpts{BankFailEnum: true, MaxEnumBlocks: 5}, QuickS: 90, ThoroughS: 900},
+	"C08": {Property: "C08", Level: "exploration", Profiles: []string{"clock", "general", "rounds"}, QuickS: 75, ThoroughS: 600},
+	"C09": {Property: "C09", Level: "exploration", Profiles: []string{"vesting", "clock", "general"}, QuickS: 75, ThoroughS: 600},
+	"C10": {Property: "C10", Level: "exploration", Profiles: []string{"general", "messages"}, QuickS: 60, ThoroughS: 300},
+	"C11": {Property: "C11", Level: "exploration", Profiles: []string{"book", "rounds", "general"}, QuickS: 75, ThoroughS: 600},
+	"C12": {Property: "C12", Level: "exploration", Profiles: []string{"clock", "general"}, QuickS: 75, ThoroughS: 600},
+	"C13": {Property: "C13", Level: "exploration", Profiles: []string{"rounds", "rounds", "book"}, QuickS: 75, ThoroughS: 600},
+	"C14": {Property: "C14", Level: "exploration", Profiles: []string{"replicas"}, QuickS: 75, ThoroughS: 900},
+	"C15": {Property: "C15", Level: "exploration", Profiles: []string{"genesis"}, QuickS: 75, ThoroughS: 600},
+	"C16": {Property: "C16", Level: "exploration", Profiles: []string{"book", "rounds", "fixed", "vesting"}, Opts: ExecOpts{Queries: true, QueryEvery: 4}, QuickS: 75, ThoroughS: 600},
+	"C17": {Property: "C17", Level: "fault_enumeration", Custom: "hooks", Profiles: []string{"hooks", "book", "clock", "fixed"}, QuickS: 60, ThoroughS: 600},
+	"C20": {Property: "C20", Level: "exploration", Custom: "cli", QuickS: 75, ThoroughS: 600},
+	"C18": {Property: "C18", Level: "exploration", Profiles: []string{"messages", "general", "messages", "extreme"}, Opts: ExecOpts{Trace: true}, QuickS: 75, ThoroughS: 600},
+	"C19": {Property: "C19", Level: "exploration", Profiles: []string{"concurrent", "general", "vesting"}, Opts: ExecOpts{Trace: true}, QuickS: 75, ThoroughS: 600},
 }
 
 type Finding struct {
